@@ -2,7 +2,9 @@ package rewriter
 
 import (
 	"go/ast"
+	"go/types"
 	"log"
+	"strings"
 
 	"github.com/goghcrow/go-ast-matcher"
 	"github.com/goghcrow/go-imports"
@@ -254,13 +256,55 @@ func (o *optimizer) etaReduction() {
 		return true
 	}
 
+	// After reduction the callee expression is evaluated once, where the literal
+	// was, instead of at every call, and the literal's type becomes the callee's.
+	// That is only sound when the callee cannot change in between and has exactly
+	// the literal's type: a (fully instantiated) package-level function, or a method
+	// value of a compiler-generated iterator variable, which is assigned only once.
+	// Everything else (function-typed variables and fields, call results, other
+	// method values, builtins, conversions, uninstantiated generics) is kept.
+	stableCallee := func(ctx astmatcher.Ctx, lit *ast.FuncLit, fun ast.Expr) bool {
+		litTy, funTy := ctx.TypeOf(lit), ctx.TypeOf(fun)
+		if litTy == nil || funTy == nil || !types.Identical(litTy, funTy) {
+			return false
+		}
+		instantiated := false
+		switch x := fun.(type) {
+		case *ast.IndexExpr:
+			fun, instantiated = x.X, true
+		case *ast.IndexListExpr:
+			fun, instantiated = x.X, true
+		}
+		var id *ast.Ident
+		var recv ast.Expr
+		switch x := fun.(type) {
+		case *ast.Ident:
+			id = x
+		case *ast.SelectorExpr:
+			id, recv = x.Sel, x.X
+		default:
+			return false
+		}
+		fn, ok := ctx.ObjectOf(id).(*types.Func)
+		if !ok {
+			return false
+		}
+		sig := fn.Type().(*types.Signature)
+		if sig.Recv() != nil {
+			x, isIdent := recv.(*ast.Ident)
+			return isIdent && strings.HasPrefix(x.Name, cstIterVar)
+		}
+		return instantiated == (sig.TypeParams().Len() > 0)
+	}
+
 	o.m.Match(
 		pattern,
 		func(c *astmatcher.Cursor, ctx astmatcher.Ctx) {
 			params := ctx.Binds["params"].(*ast.FieldList).List
 			args := ctx.Binds["args"].(ExprsNode)
-			if matched(ctx, params, args) {
-				c.Replace(ctx.Binds["fun"])
+			fun := ctx.Binds["fun"].(ast.Expr)
+			if matched(ctx, params, args) && stableCallee(ctx, c.Node().(*ast.FuncLit), fun) {
+				c.Replace(fun)
 			}
 		},
 	)
